@@ -475,11 +475,15 @@ func (l *Lexer) scanText() Token {
 		l.advance()
 	}
 
-	value := strings.TrimSpace(l.input[start:l.pos])
+	raw := l.input[start:l.pos]
+	value := strings.TrimSpace(raw)
 	end := l.position()
-	if raw := l.input[start:l.pos]; value != "" && len(strings.TrimLeftFunc(raw, unicode.IsSpace)) == len(raw) {
-		// the token ends with its text, not with the blanks that follow it
-		end = Position{Line: startPos.Line, Column: startPos.Column + utf16Len(value), Offset: start + len(value)}
+	if value != "" {
+		// the token covers its text, not the blanks around it (a leading blank
+		// can only be a non-ASCII one, e.g. U+00A0 or U+3000)
+		lead := len(raw) - len(strings.TrimLeftFunc(raw, unicode.IsSpace))
+		startPos = Position{Line: startPos.Line, Column: startPos.Column + utf16Len(raw[:lead]), Offset: start + lead}
+		end = Position{Line: startPos.Line, Column: startPos.Column + utf16Len(value), Offset: startPos.Offset + len(value)}
 	}
 	return Token{Type: TokenText, Value: value, Pos: startPos, End: end}
 }
